@@ -576,6 +576,8 @@ def _filter_build(case):
         start = g['start'][t]
         step = g['step'][t]
         ll[t] = start + step * pix + g['curv'][t] * step * pix ** 2 / nx
+    if g.get('descending'):
+        ll = ll[:, ::-1].copy()     # wavelength decreasing along the pixel axis (a spectrum stored red to blue)
     if g['flux'] == 'const':
         flux = np.zeros((nT, nx)) + np.array(g['const'])[:, None]
     elif g['flux'] == 'positive':
@@ -617,7 +619,7 @@ def _filter_cases(ctx):
                'flux': rng.choice(['const', 'positive', 'lines', 'signed']), 'const': [rng.uniform(-5, 40) for _ in range(nT)],
                'maskfrac': rng.choice([0.0, 0.05, 0.3, 0.6]), 'mask_ends': rng.choice([0, 0, 1, 3]) if nx >= 12 else 0,
                'wave_as': rng.choice(['image', 'image', 'wset']), 'toair': rng.random() < 0.25,
-               'junk': rng.choice(['big', 'nan', 'inf'])}
+               'junk': rng.choice(['big', 'nan', 'inf']), 'descending': rng.random() < 0.3}
         cases.append({'stream': 'filter', 'gen': gen})
     return cases
 
